@@ -57,7 +57,14 @@ def connect(cfg):
                        padding_cb=cbs[0])
     ss = make_settings(cfg["ver"], cfg["cipher"], cfg.get("etm", True), rs, cfg.get("macs"), cfg.get("kx"),
                        padding_cb=cbs[1])
-    L = lab.handshake(cs, ss, cred=cfg.get("cred", "rsa"), before_run=cfg.get("before_run"))
+    ckw, skw = {}, {}
+    if cfg.get("client_cert"):
+        chain, key = lab.creds("client_rsa")
+        ckw = dict(certChain=chain, privateKey=key)
+    if cfg.get("req_cert"):
+        skw = dict(reqCert=True)
+    L = lab.handshake(cs, ss, cred=cfg.get("cred", "rsa"), client_kw=ckw, server_kw=skw,
+                      before_run=cfg.get("before_run"))
     return L
 
 
